@@ -813,6 +813,9 @@ func (dru *dirRepoUpload) Digest() digest.Digest {
 func (dru *dirRepoUpload) Verify(expect digest.Digest) error {
 	dru.mu.Lock()
 	defer dru.mu.Unlock()
+	if dru.expect != "" && dru.expect != expect {
+		return fmt.Errorf("digest mismatch, session was created for %s, received %s", dru.expect, expect)
+	}
 	if dru.d.Digest() == expect {
 		return nil
 	}
